@@ -284,7 +284,7 @@ Proof.
   assumption.
 Qed.
 
-Theorem decode_trunc : forall md cfg fd gd ft zo ad atm az asp,
+Theorem decode_trunc : forall md cfg fd gd ft zo ad atm az (asp : bool),
   In (c_ned cfg) [0; 2; 3]%Z ->
   let dfs := date_forms_of (c_ned cfg) in
   In fd (date_search dfs cfg ["reduced"]) -> f_type fd = "truncated" ->
@@ -308,7 +308,7 @@ Proof.
   rewrite ZN. cbn [pbind]. rewrite point_num_trunc by auto. cbv zeta. rewrite ZA. reflexivity.
 Qed.
 
-Theorem decode_trunc_date : forall md cfg fd ad asp,
+Theorem decode_trunc_date : forall md cfg fd ad (asp : bool),
   In (c_ned cfg) [0; 2; 3]%Z ->
   let dfs := date_forms_of (c_ned cfg) in
   In fd (date_search dfs cfg []) -> f_type fd = "truncated" ->
